@@ -205,6 +205,8 @@ def OPS(E):
         'blocksign': (with_net, one('blocksign 0 5 1 1 7', ('rc', 'nsig'))),
         'blocksign_plain': (with_net, one('blocksign 0 9 0 0 8', ('rc', 'nsig'))),
         # the signer is used on after a failing call: the leaf is given up (or the call repeated); every leaf that was accepted must still get a verifying signature
+        # a signature re-assembled from its parts with an empty builder; a failing close is repeated on the same builder and must then give the fault-free result
+        'builder_close_retry': (with_sig, one('sigbuild 0 0 1', ('rc', 'sig', 'retry', 'stage'))),
         'blocksign_continue': (with_net, one('blocksign 0 6 1 1 9 cont=1', ('rc', 'nsig', 'badsig', 'failed_calls', 'handle_on_error', 'completed'))),
         'blocksign_continue_plain': (with_net, one('blocksign 0 7 0 0 5 cont=1', ('rc', 'nsig', 'badsig', 'failed_calls', 'handle_on_error', 'completed'))),
     }
@@ -291,6 +293,13 @@ def worker(job, r):
                     r.viol('objects-unusable-after-failure:%s:handle-returned-with-error' % name, 'allocation %s of %d failed; KSI_BlockSigner_addLeaf reported an error but handed out a handle (leaf %s)' % (tag, N, hoe), 'op=%s failat=%s' % (name, tag))
                 elif completed == '1' and nfail is not None and nsig is not None and int(nsig) < nleaves - int(nfail):
                     r.viol('objects-unusable-after-failure:%s:signatures-missing' % name, 'allocation %s of %d failed in %s call(s); only %s of %d leaves got a signature although the signer was used on (rc=%s)' % (tag, N, nfail, nsig, nleaves, brc), 'op=%s failat=%s' % (name, tag))
+            if name == 'builder_close_retry' and failed and res and isinstance(res[0], tuple) and res[0][1] not in ('0', None) and res[0][4] is None and len(fs) == 1:
+                _, brc, bsig, retry, _st = res[0]
+                if retry != '0' or bsig != ref[0][2]:
+                    r.viol('not-repeatable:builder_close', 'allocation %s of %d failed inside KSI_SignatureBuilder_close (rc=%s); repeating close on the same builder without fault gives rc=%s and %s' % (
+                        tag, N, brc, retry, 'the fault-free signature' if bsig == ref[0][2] else ('ANOTHER signature (%d instead of %d bytes)' % (len(bsig or '') // 2, len(ref[0][2] or '') // 2))), 'op=%s failat=%s' % (name, tag))
+                else:
+                    r.count('builder_close_repeated_ok')
             r.observe((name, tag, is_error(res), failed))
             r.count('faults_injected' if failed else 'fault_not_reached')
             if failed and is_error(res):
